@@ -204,6 +204,15 @@ class NumChecker:
             return
         bound = tol * (float(scale) if scale is not None else 1.0)
         worst = None
+        # rounding slack is norm-wise: an entry that is small by cancellation carries the rounding error of the large ones
+        big = 1.0
+        for x in list(va) + list(vb):
+            if not isinstance(x, bool):
+                try:
+                    if math.isfinite(float(x)):
+                        big = max(big, abs(float(x)))
+                except (TypeError, ValueError):
+                    pass
         for i, (x, y) in enumerate(zip(va, vb)):
             if isinstance(x, bool) or isinstance(y, bool):
                 if bool(x) != bool(y):
@@ -214,8 +223,11 @@ class NumChecker:
             except TypeError:
                 worst = (i, x, y, float('inf'))
                 continue
+            if not (math.isfinite(x) and math.isfinite(y)):
+                worst = (i, x, y, float('inf'))       # inf/nan never equals a specified value
+                continue
             err = abs(x - y)
-            slack = 64 * EPS * max(1.0, abs(x), abs(y))
+            slack = 256 * EPS * big
             if not (err <= bound + slack):
                 if worst is None or err > worst[3]:
                     worst = (i, x, y, err)
